@@ -117,6 +117,7 @@ def gen_config(seed, tier='quick', family=None):
         'measure_initial': wl.random() > 0.15,
         'save_stats': wl.random() > 0.2,
         'save_psi': wl.random() > 0.12,  # False: psi only inside resume_data (save_resume_data=True)
+        'wrapped_measurement': wl.random() < 0.5,  # only used together with extra_measurements
     }
     if fam == 'vumps' and cfg['ext'] == '.h5':
         # Observed on the pinned tree: an HDF5 results file holding a UniformMPS (VUMPS checkpoints) does not load
@@ -249,6 +250,12 @@ def build_params(cfg, out_name='results'):
         params['connect_measurements'] = [['tenpy.simulations.measurement', 'm_onsite_expectation_value',
                                            {'opname': 'Sz'}],
                                           ['tenpy.simulations.measurement', 'm_energy_MPO']]
+        if cfg.get('wrapped_measurement'):
+            import checks.c18_models  # noqa: F401
+            # the documented "wrap" form with a user-chosen results_key, for a plain function and a psi method
+            params['connect_measurements'] += [
+                ['checks.c18_models', 'wrap constant_measurement', {'results_key': 'my_const', 'value': 7.0}],
+                ['psi_method', 'wrap entanglement_entropy', {'results_key': 'S_wrapped'}]]
     return params
 
 
